@@ -41,6 +41,18 @@ noncomputable scoped instance instTranscReal : Transc ℝ where
 
 theorem ofLit_real (l : Lit) : (ofLit l : ℝ) = (l.num : ℝ) / (l.den : ℝ) := rfl
 
+/-- `SignBit ℝ`: one zero, no NaN — "sign bit clear" is `0 ≤ x`. -/
+noncomputable scoped instance instSignBitReal : SignBit ℝ := ⟨fun x => decide (0 ≤ x)⟩
+
+theorem signBit_real (x : ℝ) : SignBit.isSignPositive x = decide (0 ≤ x) := rfl
+
+/-- A sign-bit predicate on an ordered field that is the order test `0 ≤ x` (the only lawful choice on a type with a
+single zero and no NaN). -/
+class LawfulSignBitField (α : Type) [Zero α] [LE α] [SignBit α] : Prop where
+  sign_iff : ∀ x : α, SignBit.isSignPositive x = true ↔ (0 : α) ≤ x
+
+instance : LawfulSignBitField ℝ := ⟨fun x => by simp [signBit_real]⟩
+
 /-! ### Helper lemmas for `Props/C09.lean` -/
 open Cv.Special
 
